@@ -77,6 +77,19 @@ def judge(case):
         return core.result("limit", digest=core.digest_of([core.fhex(z) for z in seq]), viol=v, sample={"abs_ln_gamma": seq})
     g = ACT(temperature=t, mixture=mix, composition=U.Composition(p=x, type="molar"), calculation_type=model)
     g = (float(g[0]), float(g[1]))
+    if case["what"] == "trace":
+        # trace compositions: only the partial-pressure clause (x gamma Psat; mass- vs mole-fraction input), relative comparison
+        w = U.exact_to_weight(x, mix.first_component.molecular_weight, mix.second_component.molecular_weight)
+        pm = U.pyvaporation.get_partial_pressures(t, mix, U.Composition(p=x, type="molar"), model)
+        pw = U.pyvaporation.get_partial_pressures(t, mix, U.Composition(p=w, type="weight"), model)
+        ps = (float(mix.first_component.get_vapor_pressure(t)), float(mix.second_component.get_vapor_pressure(t)))
+        ref = (x * g[0] * ps[0], (1 - x) * g[1] * ps[1])
+        if all(math.isfinite(z) for z in g) and not all(core.close(float(pm[i]), ref[i], core.ULP) or pm[i] == ref[i] for i in (0, 1)):
+            v.append(core.viol("C04/partial_pressure/" + model, "trace composition x1=%r: partial pressures %r, x*gamma*Psat = %r" % (x, (float(pm[0]), float(pm[1])), ref)))
+        if all(math.isfinite(float(z)) for z in pm) and not all(core.close(float(pw[i]), float(pm[i]), 1e-7) for i in (0, 1)):
+            v.append(core.viol("C04/basis/" + model, "trace composition: partial pressures differ between mole fraction %r and the equivalent mass fraction %r: %r vs %r" % (
+                x, w, (float(pm[0]), float(pm[1])), (float(pw[0]), float(pw[1])))))
+        return core.result("trace", digest=core.digest_of([core.fhex(float(pm[0])), core.fhex(float(pm[1]))]), viol=v)
     if model == "NRTL" and not all(math.isfinite(z) and z > 0 for z in g):
         return core.result("nonfinite", viol=[core.viol("C04/nonfinite/" + model, "activity coefficients %r" % (g,))])
     mirror2 = False
@@ -175,6 +188,8 @@ def main(tier, seed):
         return True
 
     core.run_space(rep, core.Space("interior", {"what": ["interior"], "mixture": mx, "model": ["NRTL", "UNIQUAC"], "T": temps, "x": xs}, ok), judge)
+    core.run_space(rep, core.Space("trace_compositions", {"what": ["trace"], "mixture": mx if not q else mx[:16], "model": ["NRTL", "UNIQUAC"], "T": temps,
+                                                         "x": [1.234567e-9, 3.21987e-8, 1.23456789e-6, 1 - 1.23456789e-6, 1 - 3.21987e-8]}, ok), judge)
     core.run_space(rep, core.Space("limits", {"what": ["limit"], "mixture": mx, "model": ["NRTL", "UNIQUAC"], "T": temps, "x": [0.0, 1.0]}, ok), judge)
     return rep.finish()
 
